@@ -81,7 +81,15 @@ func genSpec(t *rapid.T, o specOpts) stack.Spec {
 		add("map", !o.needAsk)
 		add("wl", !o.needAsk || (hasAsk && hasSec))
 		add("p2pke", cur >= 400 && !o.needAsk)
-		add("quic", cur >= 1400)
+		hasQuic := false
+		for _, pl := range s.Layers {
+			if pl.Kind == "quic" {
+				hasQuic = true
+			}
+		}
+		// at most one QUIC layer: QUIC over QUIC multiplies handshake time-outs (each outer packet may wait
+		// for an inner dial), which makes cases take minutes without exercising anything new
+		add("quic", cur >= 1400 && !hasQuic)
 		if len(kinds) == 0 {
 			break
 		}
